@@ -926,3 +926,50 @@ Proof.
   - apply file_intactb_ok; [exact C|apply auto_tail_split].
   - split; [exact A|]. split; [exact D|exact B].
 Qed.
+
+(* ov_pcm_seek_page on an intact run: the position it reports is where the first packet that follows ends, and
+   the first fetch after it delivers nothing and leaves the handle in sync exactly there *)
+Theorem pcm_seek_page_truthful (tail : list page) s pos s1 :
+  v_hs s = 0 -> OPENED <= v_rs s <= INITSET ->
+  pcm_seek_page s pos = (0, s1) -> fallback s pos = false -> FileIntact tail s1 pos ->
+  let s2 := make_ready s1 in
+  let e := v_pcm s1 - base_of s1 (v_link s1) in
+  v_pcm s1 <= pos /\
+  exists p r w s0,
+    stream tail s2 = p :: r /\ pk_W p = Some w /\
+    fetch (fetch_fuel s2) s2 = (1, feed s0 p w) /\
+    SyncInv (feed s0 p w) e /\ dec_pcmout (v_dec (feed s0 p w)) = 0 /\ v_pcm (feed s0 p w) = v_pcm s1 /\
+    IntactS (cur_link s1) false e w r.
+Proof.
+  intros Hhs Hrs Hpage Hfb (Hb0 & Hb1 & Hb01 & Hm0 & Hm1 & Hi & Hpl & Hin & Hre).
+  destruct (page_seek_facts s pos s1 Hpage Hfb Hrs) as (F1 & F2 & F3 & F4 & F5).
+  assert (Landed tail s1 pos) as Hland.
+  { unfold Landed. rewrite F1. split; [exact Hhs|]. split; [exact F2|]. repeat (split; [assumption|]). split; [lia|]. split; [exact Hin|]. split; [exact Hre|lia]. }
+  destruct (landed_ready tail s1 pos Hland) as (Hc2 & Hpl2 & Hd2 & Hst2 & Hr2 & Hq2).
+  cbv zeta. set (s2 := make_ready s1) in *. split; [exact F5|].
+  destruct Hd2 as (He0 & Hret & Hph).
+  assert (cur_link s2 = cur_link s1 /\ base_of s2 (v_link s2) = base_of s1 (v_link s1) /\ v_pcm s2 = v_pcm s1) as (L1 & L2 & L3).
+  { unfold s2, make_ready. destruct (v_rs s1 =? STREAMSET); repeat split; reflexivity. }
+  rewrite L1, L2, L3 in Hph. rewrite L2, L3 in He0.
+  set (e := v_pcm s1 - base_of s1 (v_link s1)) in *.
+  destruct Hph as [(_ & Hseq & Hin2 & Hre2 & _)|(Hlb & _)].
+  2: { exfalso. destruct Hc2 as (_ & _ & B0 & B1 & _). rewrite L1 in B0, B1. unfold blocksize in Hlb. destruct (d_W (v_dec s2)); lia. }
+  destruct (stream tail s2) as [|p r] eqn:Est; [exfalso; exact Hre2|].
+  cbn [IntactS] in Hin2. destruct Hin2 as (w & Hw & Heos & Hg & Hrest).
+  assert (Forall audio (stream tail s2)) as Hau.
+  { rewrite Est. constructor; [exists w; exact Hw|]. eapply intact_audio. exact Hrest. }
+  pose proof Hc2 as (_ & Hrs2 & _).
+  destruct (fetch_plain tail (fetch_fuel s2) s2 p r Hrs2 Hpl2 Hau) as (w' & s0 & Hw' & Hfe & Hv0 & Hst0 & Hpl0);
+    [unfold fetch_fuel; destruct (stream_bound tail s2 Hpl2) as [B1 B2]; lia|exact Est|].
+  rewrite Hw in Hw'. injection Hw' as <-.
+  assert (Core s0) as Hc0 by (eapply view_core; [symmetry; exact Hv0|exact Hc2]).
+  assert (PreSync s2 e p w) as Hps.
+  { unfold PreSync. rewrite L1, L2, L3. repeat split; try assumption; try (unfold e; lia). }
+  assert (PreSync s0 e p w) as Hps0 by (eapply view_presync; [symmetry; exact Hv0|exact Hps]).
+  destruct (feed_presync s0 e p w Hc0 Hps0) as (Hsync & Hout & HW).
+  exists p, r, w, s0. split; [reflexivity|]. split; [exact Hw|]. split; [exact Hfe|]. split; [exact Hsync|]. split; [exact Hout|].
+  split; [|exact Hrest].
+  destruct Hsync as (_ & _ & _ & _ & _ & _ & _ & _ & S9 & _).
+  destruct (link_feed s0 p w) as (_ & L4). destruct (view_link _ _ Hv0) as (_ & L5 & _).
+  rewrite S9, L4, L5, L2. unfold e. lia.
+Qed.
